@@ -419,4 +419,16 @@ theorem faultfree_delivers_all (es : List Ev) : ∀ (s : State) (c sid : Nat) (l
     · rw [d4, b4]; simp
     · rw [d5, b5]; simp [blocksOf]
 
+/-- Every block written on a connection belongs to an event that the behaviour dispatched to the
+peer of that very connection: a peer is never sent, on any of its connections, a block that was
+dispatched to somebody else or to nobody. -/
+theorem written_from_own_event (s : State) (hr : Reachable s) (c : Nat) (l : Link) (hl : s.links[c]? = some l)
+    (b : Proto.Block) (hb : b ∈ writtenOf l.outs) :
+    ∃ e ∈ l.delivered, e.peer = l.peer ∧ b ∈ e.blocks.map encB := by
+  have hsub := (written_sublist_delivered s hr c l hl).subset hb
+  unfold blocksOf at hsub
+  rw [List.mem_flatMap] at hsub
+  obtain ⟨e, he, hbe⟩ := hsub
+  exact ⟨e, he, routed_to_own_peer s hr c l hl e (Or.inr he), hbe⟩
+
 end Beetswap.Proofs.ServerLink
